@@ -3,6 +3,7 @@ import SfxModel.DriverWrap
 import SfxModel.DriverCodec
 import SfxModel.DriverConv
 import SfxModel.DriverMath
+import SfxModel.DriverText
 /-
   Main.lean — line-protocol driver.  stdin: the Rust harness' output, one `request => answer` per line.
   For every line: recompute the answer with the model (projected to the build profile given as the first
@@ -36,12 +37,15 @@ def isConvOp (op : String) : Bool :=
   op.startsWith "cv_" || op.startsWith "cmp_" || op.startsWith "icv_" || op.startsWith "icmp" || op.startsWith "fcv_" ||
   op.startsWith "fcmp" || op.startsWith "same_" || op == "h_to_fixed_helper" || op == "h_to_float_kind" || op == "h_from_to_float"
 
+def isTextOp (op : String) : Bool := op == "h_from_str" || op.startsWith "p_" || op == "h_fmt" || op == "f_fmt" || op == "rt"
+
 /-- model answer, already rendered for the profile (`none`: no model for this request) -/
 def modelOf (prof : Profile) (L : Layout) (op : String) (args : List String) : Option String :=
   if op == "wprog" then (DriverWrap.run L prof args).map (·.1)
   else if codecOps.contains op then DriverCodec.model L op args
   else if isConvOp op then DriverConv.model prof L op args
   else if op.startsWith "t_" then DriverMath.model prof L op args
+  else if isTextOp op then DriverText.model prof L op args
   else match args.mapM String.toInt? with
   | some ints => (DriverArith.model L (DriverArith.baseOp op) ints).map (Outcome.render prof)
   | none => none
@@ -55,11 +59,11 @@ def specOf (prof : Profile) (L : Layout) (op : String) (args : List String) : Op
   | some ints => (DriverArith.spec L (DriverArith.baseOp op) ints).map (Outcome.render prof)
   | none => none
 
-def isSpecial (ans : String) : Bool := ans == "P" || ans.startsWith "E;" || ans == "N" || ans == "U" || ans.endsWith ",1" || ans.endsWith ";P"
+def isSpecial (ans : String) : Bool := ans == "P" || ans.startsWith "E;" || ans.startsWith "E:" || ans == "N" || ans == "U" || ans.endsWith ",1" || ans.endsWith ";P"
 
 def argsInRange (L : Layout) (op : String) (args : List String) : Bool :=
   -- operands of typed arithmetic requests are bit patterns of the layout (the driver rejects others)
-  if op.startsWith "h_div_rem_from" || op.startsWith "t_" || op == "wprog" || op == "decode" || op.startsWith "from_" || isConvOp op then true
+  if op.startsWith "h_div_rem_from" || op.startsWith "t_" || isTextOp op || op == "wprog" || op == "decode" || op.startsWith "from_" || isConvOp op then true
   else args.all (fun a => match a.toInt? with | some i => decide (inRange L i) | none => true)
 
 partial def loop (prof : Profile) (h : IO.FS.Stream) (out : IO.FS.Stream) (st : Stats) : IO Stats := do
@@ -92,6 +96,13 @@ partial def loop (prof : Profile) (h : IO.FS.Stream) (out : IO.FS.Stream) (st : 
                   out.putStrLn s!"DIFF {line} model={ms}"
                   pure { st with diff := st.diff + 1 }
                 else pure st
+          let st ← (if isTextOp op then
+              match DriverText.verdict L op args ans with
+              | none => pure st
+              | some msg => do
+                  out.putStrLn s!"SPEC {line} spec={msg.replace " " "_"}"
+                  pure { st with spec := st.spec + 1 }
+            else pure st)
           let st ← (if op.startsWith "t_" then
               match DriverMath.verdict prof L op args ans with
               | none => pure st
